@@ -191,6 +191,13 @@ impl ServerState {
                     TaskMessage::CompilationContext(ctx) => {
                         #[cfg(fuellabs_sway_verif)]
                         sway_utils::verif::step("W.recv", &format!("\"version\":{}", ctx.version.unwrap_or(-1)));
+                        // A retrigger request seen from here on is meant for this compilation.
+                        // One that was raised earlier was meant for a compilation that has
+                        // already ended (or for a request that was replaced while it was still
+                        // queued); left in place it would cancel this, newer, compilation at its
+                        // first check and the latest edit would never be compiled.
+                        retrigger_compilation.store(false, Ordering::SeqCst);
+
                         let uri = &ctx.uri;
                         let path = uri.to_file_path().unwrap();
                         let mut engines_clone = ctx.engines.read().clone();
